@@ -5,6 +5,7 @@ package main
 // (positions and display-name quoting aside).
 
 import (
+	"errors"
 	"bytes"
 
 	"github.com/mna/pigeon/ast"
@@ -30,8 +31,19 @@ func c20Strip(t any) any {
 }
 
 func c20Both(text []byte) (bg, pg *ast.Grammar, berr, perr error) {
-	bp := bootstrap.NewParser()
-	bg, berr = bp.Parse("", bytes.NewReader(text))
+	func() {
+		// a text on which the hand-written front end panics (it does on an unterminated
+		// class, `[` + newline: ast.NewCharClassMatcher("[")) is not in the bootstrap
+		// subset; C20 says nothing about it
+		defer func() {
+			if r := recover(); r != nil {
+				bg, berr = nil, errors.New("bootstrap front end panicked")
+				symNote("bootstrap-panic")
+			}
+		}()
+		bp := bootstrap.NewParser()
+		bg, berr = bp.Parse("", bytes.NewReader(text))
+	}()
 	g, err := Parse("", text)
 	perr = err
 	if err == nil {
@@ -132,4 +144,30 @@ func Harness_C20op(arg int) {
 	text = append(text, suf)
 	text = append(text, []byte(" 'b' / 'c' { return nil, nil } / ( B 'd' )*\nB <- .\n")...)
 	c20Compare(text, "operators")
+}
+
+// Harness_C20free: symbolic bytes from the characters that mean something to
+// either front end, inserted into a concrete text - between tokens, inside a
+// multi-line comment, a line comment, after a label, inside a class, inside a
+// string. Whatever the hole contains: if the bootstrap front end accepts the
+// text, pigeon accepts it and builds the same AST.
+var c20Free = [][2]string{
+	{"A <- 'a' ", " 'c'\n"},
+	{"A <- 'a' /*", " 'b' */ 'c'\n"},
+	{"A <- 'a' //", "\nB <- 'b'\n"},
+	{"A <- x:", "'c' / 'd'\n"},
+	{"A <- [a", "] 'c'\n"},
+	{"A <- \"a", "\" 'c'\n"},
+}
+
+const c20FreeAlphabet = "/*'\"aB()[]<-=:;{}?+!&.^\\i \n"
+
+func Harness_C20free(arg int) {
+	sk, n := c20Free[arg/8], arg%8
+	hole := symBytes("f", n)
+	for _, b := range hole {
+		symAssume(symInSet(b, c20FreeAlphabet))
+	}
+	text := append(append([]byte(sk[0]), hole...), sk[1]...)
+	c20Compare(text, "free hole")
 }
